@@ -186,6 +186,7 @@ func runL3(r *ev.Run) bool {
 		"ecdsa_sig_shapes":   "valid, highS, padR, padS, nopad(negative) R/S, long-form lengths, seqlen+-1, trailing bytes, bad tags, zero-length ints, r=0, s=0, s=n, truncated, >73 bytes, only-hashtype, empty, no-hashtype, two hashtype bytes, wrong key, wrong digest",
 		"hash_types":         hashTypeClasses,
 		"wrappings":          []string{"bare", "p2sh", "p2wsh", "p2sh-p2wsh", "p2pkh", "p2wpkh", "p2sh-p2wpkh", "taproot key path", "tapscript"},
+		"multisig_hashtypes": "2-of-2 and 2-of-3 with every pair of signing keys x per-signature hash types {01,02,03,81,83} squared x bare/P2SH/P2WSH/P2SH-P2WSH (input index 1 of a 2-in 2-out transaction)",
 		"multisig":           "m-of-n for n<=3 with every per-slot signature choice x per-key shape (one key varied at a time) x dummy {empty,00,01}; n=20/21",
 		"flag_sets":          len(allFlagSets),
 		"tx":                 "2 inputs (index 1 tested), 2 outputs (and 1 output for SIGHASH_SINGLE out-of-range), version 2",
@@ -564,6 +565,37 @@ func l3Multisig(c *l3Collector, thorough bool) {
 					items := [][]byte{{}, {}, g, sigC}
 					p, sg, w := wrap(wk, form.script, items)
 					c.add("L3/multisig-fad-empty/"+wk.name, fmt.Sprintf("%s sigs=[empty %s sigC] sigC signed over %s", form.name, gn, dn), env.spend(p, sg, w), allFlagSets)
+				}
+			}
+		}
+	}
+	// per-signature hash types inside one CHECKMULTISIG: every signature is
+	// checked against its own digest of the *unchanged* transaction, whatever
+	// digest shape the signature checked before it used (SINGLE blanks the
+	// outputs before the input's index in its scratch copy, NONE drops them,
+	// ANYONECANPAY drops the other inputs).  Signatures are verified last first.
+	{
+		mixed := []byte{0x01, 0x02, 0x03, 0x81, 0x83}
+		for _, wk := range []wrapKind{wkBare, wkP2SH, wkP2WSH, wkP2SHP2WSH} {
+			for _, n := range []int{2, 3} {
+				script := []byte{0x52}
+				for i := 0; i < n; i++ {
+					script = append(script, push(keys[i].comp)...)
+				}
+				script = append(script, byte(refscript.OP_1-1+n), refscript.OP_CHECKMULTISIG)
+				for _, pair := range [][2]int{{0, 1}, {0, 2}, {1, 2}} {
+					if pair[1] >= n {
+						continue
+					}
+					for _, ha := range mixed {
+						for _, hb := range mixed {
+							sa := append(signECDSA(keys[pair[0]], env.digest(wk.sv, script, ha)).der(), ha)
+							sb := append(signECDSA(keys[pair[1]], env.digest(wk.sv, script, hb)).der(), hb)
+							pk, sig, wit := wrap(wk, script, [][]byte{{}, sa, sb})
+							c.add("L3/multisig-hashtypes/"+wk.name, fmt.Sprintf("2-of-%d sigs by keys %v hash types [%02x %02x]", n, pair, ha, hb),
+								env.spend(pk, sig, wit), allFlagSets)
+						}
+					}
 				}
 			}
 		}
